@@ -56,7 +56,7 @@ def tlc(module, cfg_text, env=None, workers=8, heap_mb=2048, timeout=1800, extra
             target = os.path.join(tmp, module + '.tla')
             with open(target, 'w') as f:
                 f.write(mc_text)
-        cmd = ['java', '-XX:+UseParallelGC', '-Xmx%dm' % heap_mb, '-Xss%dm' % stack_mb, '-DTLA-Library=' + SPEC, '-cp', JAR, 'tlc2.TLC',
+        cmd = ['java', '-XX:+UseParallelGC', '-Xmx%dm' % heap_mb, '-Xss%dm' % stack_mb, '-Djava.io.tmpdir=' + tmp, '-DTLA-Library=' + SPEC, '-cp', JAR, 'tlc2.TLC',
                '-workers', str(workers), '-fpmem', '0.05', '-metadir', os.path.join(tmp, 'meta'),
                '-noGenerateSpecTE', '-config', cfg]
         if not deadlock:
